@@ -172,8 +172,10 @@ class BodyCmp:
         i = 0
         N = len(lv)
         kept = {}
+        strict = getattr(self, 'strict', False)
         while i < N:
             op, live, depth, opener = lv[i]
+            live = live or strict
             nm = op.variant
             if nm == 'Nop':
                 # nop removal is tolerated either way
